@@ -41,6 +41,7 @@ func (r Readers) Execute(pl engine.Plan, c *engine.RunCtx) *engine.Failure {
 	st := c.Stats
 	c.MaxEvents = 1 << 22
 	enablePanicOnFault()
+	padKeep = applyPad(p.Pad)
 	w := buildWorld(p.World)
 	defer w.arena.free()
 	snap0 := w.snapshot()
@@ -170,6 +171,29 @@ func (r Readers) Execute(pl engine.Plan, c *engine.RunCtx) *engine.Failure {
 	}
 	st.State(engine.HashU64(0, snap0, sch.InterleavingHash()))
 	return nil
+}
+
+var padKeep [][]byte
+
+// applyPad shifts the heap layout by allocating pad odd-sized blocks.
+func applyPad(pad int) [][]byte {
+	out := make([][]byte, 0, pad)
+	for i := 0; i < pad; i++ {
+		b := make([]byte, 8*i+24+i%7)
+		b[0] = byte(i)
+		out = append(out, b)
+	}
+	return out
+}
+
+// Perturb returns a copy of the plan with another layout pad (used by the
+// supervisor when a race report of a worker does not reproduce in a fresh
+// process with the recorded layout).
+func (Readers) Perturb(pl engine.Plan, k int) engine.Plan {
+	p := pl.(*ReadersPlan)
+	q := *p
+	q.Pad = k
+	return &q
 }
 
 func schTaskPanic(s *engine.Sched, t int) interface{} { return s.TaskPanic(t) }
